@@ -492,6 +492,7 @@ PROPS = {
         "assumptions": [],
         "units": [
             {"pkg": S, "test": "TestVerifC17", "quick": (16, 400), "thorough": (16, 10000), "timeout_q": 1500},
+            {"pkg": T, "test": "TestVerifC17_table", "quick": (8, 3000), "thorough": (16, 100000)},
         ],
     },
 }
@@ -517,7 +518,11 @@ EXTENSIONS = {
             "Adj-RIB-In and Loc-RIB must hold the reconstructed 4-octet attributes and no AS4_* attribute, and the observer must "
             "receive every route. The table-level unit also requires every reconstructed attribute to report the length it "
             "serialises to."),
-    "C17": ("Other extended communities may precede the route targets; in a third of the cases the CE sessions negotiate ADD-PATH and "
+    "C17": ("Table level (TestVerifC17_table): two VRFs over one TableManager, sequences of originate / withdraw in a VRF, VPN routes of "
+            "two remote PEs under the VRFs' own RDs with LOCAL_PREF 50/100/200 (so that a VRF's route is not the best of its "
+            "destination), DeleteVrf / AddVrf: the VPN table holds exactly the model's (RD:prefix, source) paths, local routes carry the "
+            "export targets, DeleteVrf withdraws exactly the deleted VRF's routes. Q's session may be lost and re-established "
+            "(memberships start from nothing). Other extended communities may precede the route targets; in a third of the cases the CE sessions negotiate ADD-PATH and "
             "announce / withdraw their prefix under two path identifiers; half of the histories issue operations without waiting for "
             "the previous one (steered yield points incl. the RTC filter)."),
     "C20": ("The management actors also call the rest of the API: ShutdownPeer, hard ResetPeer, GetTable / GetBgp / ListVrf, defined "
